@@ -128,8 +128,10 @@ C10(C, X) ==
 C11(C, X) ==
   /\ \A s \in Scheds(C) : Over(X, s) => \A d \in Desc(C, s) : ~Live(X, d)
   \* handlers can be pending below s only while s itself is casting
-  /\ \A s \in Scheds(C) : (Over(X, s) /\ ~ShPending(X, s)) => \A d \in Desc(C, s) : ~ShPending(X, d)
-  /\ Over(X, Root) => \A n \in Nodes(C) : ~Live(X, n) /\ ~ShPending(X, n) /\ ~X.creq[n]
+  \* (or while the caller's explicit shutdown() is going on)
+  /\ \A s \in Scheds(C) : (Over(X, s) /\ ~ShPending(X, s) /\ X.xs # "running") => \A d \in Desc(C, s) : ~ShPending(X, d)
+  /\ Over(X, Root) => \A n \in Nodes(C) : ~Live(X, n) /\ ~X.creq[n]
+  /\ (Over(X, Root) /\ X.xs # "running") => \A n \in Nodes(C) : ~ShPending(X, n)
 
 (* C12  eager start (unwindowed schedulers)                                *)
 C12(C, X) ==
@@ -155,6 +157,10 @@ C13(C, X) ==
            /\ (C.stmo[s] >= 0 /\ ~C.preshut) => X.te[s] <= X.sdl[s] + Max({C.scdur[d] : d \in Desc(C, s)} \cup {0})
   /\ \A k \in Nodes(C) \ {Root} :
        X.sh[k] # "none" => \A b \in Desc(C, C.parent[k]) : ~Live(X, b)
+  \* once the caller's explicit shutdown() has returned, every job has had it, exactly once,
+  \* however the run ended
+  /\ X.xs = "done" => \A n \in Nodes(C) \ {Root} : X.nshut[n] = 1 /\ ~ShPending(X, n)
+  /\ X.xs # "none" => Over(X, Root)
 
 (* C14  the inspection predicates are functions of the state               *)
 IsIdleOf(X, n)      == X.st[n] = "idle"
